@@ -69,15 +69,21 @@ fn images(check: &Check) -> Vec<(String, Image)> {
     let mut out = vec![];
     for color in Color::ALL {
         let ch = color.channels();
-        for (i, s) in assignments(&alphabet(color, true), ch).into_iter().enumerate() {
+        // quick tier, colour: the 1x1 alphabet is the 3-letter one
+        let a1 = if check.quick() && ch == 3 { alphabet(color, false) } else { alphabet(color, true) };
+        for (i, s) in assignments(&a1, ch).into_iter().enumerate() {
             out.push((format!("{}/1x1/v{i}", color.name()), Image { color, w: 1, h: 1, samples: s }));
         }
         for (w, h) in [(1u32, 2u32), (2, 1)] {
             let alpha = alphabet(color, false);
             for (i, s) in assignments(&alpha, 2 * ch).into_iter().enumerate() {
-                // quick tier, colour: the second pixel is restricted to grey (r = g = b)
-                if check.quick() && ch == 3 && !(s[3] == s[4] && s[4] == s[5]) {
-                    continue;
+                // quick tier, colour: one pixel takes every assignment while the other one is the fixed
+                // asymmetric pixel (last, first, first letter), in both positions
+                if check.quick() && ch == 3 {
+                    let fixed = [alpha[2], alpha[0], alpha[0]];
+                    if s[..3] != fixed && s[3..] != fixed {
+                        continue;
+                    }
                 }
                 out.push((format!("{}/{w}x{h}/v{i}", color.name()), Image { color, w, h, samples: s }));
             }
@@ -354,9 +360,9 @@ fn main() {
     let check = Check::from_args("C35", Level::Exploration);
     check.set_rule(
         "images = colour types {L8, L16, RGB8, RGB16} x (1x1: every assignment of {0,1,max} (16-bit: + 0x0102, 0xFF00) to the channels; \
-         1x2 and 2x1: every assignment of a 3-value alphabet ({0,1,255} / {0,0x0102,0xFFFF}) to all samples (quick, colour: second pixel grey); \
+         1x2 and 2x1: every assignment of a 3-value alphabet ({0,1,255} / {0,0x0102,0xFFFF}) to all samples (quick, colour: 3-letter alphabet for 1x1, and for two pixels one pixel fixed to (max,0,0) while the other takes every assignment, both positions); \
          2x2, 3x1, 1x3, 4x3 (thorough: + 7x5, 64x1, 1x64, 64x64): distinct index-coded byte-asymmetric samples) \
-         x base DICOM files {8-bit mono ELE, 16-bit signed mono with rescale/window ILE, 8-bit planar RGB 2 frames ELE} \
+         x base DICOM files {8-bit mono ELE, 16-bit signed mono with rescale/window ILE, 8-bit planar RGB 2 frames ELE} (quick: one base per image in rotation, all bases for the first assignment and the index-coded image of each shape) \
          x routes {(a) fromimage --encapsulate + toimage --unwrap; (b) native + toimage for colour; (c) native + toimage for grey, dimensions only}; \
          a case is (image, base, route), distinct by id; non-trivial = fromimage produced the intermediate file",
     );
@@ -369,8 +375,13 @@ fn main() {
     let imgs = images(&check);
     let bases = bases();
     let mut cases = vec![];
-    for (iid, im) in &imgs {
-        for (bname, b) in &bases {
+    for (n, (iid, im)) in imgs.iter().enumerate() {
+        for (bn, (bname, b)) in bases.iter().enumerate() {
+            // quick tier: one base per image (rotating, so every colour type meets every base); the first
+            // assignment and the index-coded images of every shape meet all bases
+            if check.quick() && bn != n % bases.len() && !(iid.ends_with("/v0") || iid.ends_with("/idx")) {
+                continue;
+            }
             let routes: &[Route] = if im.color.channels() == 3 { &[Route::A, Route::B] } else { &[Route::A, Route::C] };
             for r in routes {
                 cases.push(Case { id: format!("{}/{iid}/{bname}", &r.name()[..1]), route: *r, image: im, base_name: bname, base: b });
